@@ -16,7 +16,7 @@ def const_payload(val):
     return f"{name}:" + repr(val).replace(" ", "").replace("(", "<").replace(")", ">").replace(",", ";")
 
 
-def func_terms(h, fname):
+def func_terms(h, fname, want_outputs=False):
     fn = None
     for n, d in h.nodes():
         if isinstance(d.op, ops.FuncDefn) and d.op.f_name == fname:
@@ -81,4 +81,25 @@ def func_terms(h, fname):
                 while isinstance(h[x].op, ops.LoadConst):
                     x = list(h.linked_ports(InPort(x, 0)))[0].node
                 argnodes.add(x)
+    outs = []
+    for n in desc:
+        if not isinstance(h[n].op, ops.Output):
+            continue
+        parent = h[n].parent
+        pop = h[parent].op
+        if parent == fn:
+            skip = 0
+        elif isinstance(pop, ops.DataflowBlock):
+            skip = 1          # first block output is the branch tag
+        else:
+            continue
+        for i in range(skip, h.num_in_ports(n)):
+            try:
+                k = h.port_kind(InPort(n, i))
+            except Exception:
+                continue
+            if isinstance(k, ValueKind):
+                outs.append(src(n, i))
+    if want_outputs:
+        return sorted(terms[n] for n in interesting if n not in argnodes), outs
     return sorted(terms[n] for n in interesting if n not in argnodes)
